@@ -296,6 +296,16 @@ def conclude(prop, module, tier, seed, total, notes, started, args, replay):
     min_eval = meta.get("min_evaluations", {}).get(tier, 1)
     required = meta.get("required_counters", [])
     inconclusive = list(total["inconclusive"])
+    # single cases cut by the wall-clock case watchdog (a loaded machine, a heavy borrowed
+    # workload case) are not part of what was observed; a handful of them does not make the whole
+    # run inconclusive, they are reported in the evidence and on stdout instead
+    cut = [i for i in inconclusive if i.get("reason") == "case watchdog fired"]
+    cut_limit = max(2, int(total.get("cases_done", 0) * 0.001))
+    if cut and len(cut) <= cut_limit and not replay:
+        inconclusive = [i for i in inconclusive if i.get("reason") != "case watchdog fired"]
+        total["counters"]["cases_cut_by_watchdog"] = len(cut)
+        print(f"[{prop}] note: {len(cut)} case(s) cut by the case watchdog are not part of what was "
+              f"observed (limit {cut_limit})")
     if total["evaluations"] < min_eval and not replay:
         inconclusive.append(
             {"reason": f"deciding monitor made {total['evaluations']} evaluations (< {min_eval})"})
